@@ -47,6 +47,38 @@ def late_child_scenario(rng, i):
     return {"id": f"c08-late-{i}", "config": {"keep": rng.chance(1, 2), "dump_each": False}, "models": [w], "ops": ops, "exprs": {}, "features": ["catch", "late-child"]}
 
 
+def second_error_scenario(rng, i):
+    """a task whose catch has already taken one error is reached by a further error: raised inside the steps of the handler, or by a
+    second `error` on the act its catch revived; that error is not caught again and must be reported like any other ending"""
+    handler = [{"id": "cs1", "acts": [{"id": "ca1", "uses": gen.IRQ, "key": "kca1"}]}]
+    if rng.chance(1, 3):
+        handler.append({"id": "cs2", "acts": [{"id": "ca2", "uses": gen.IRQ, "key": "kca2"}]})
+    a1 = {"id": "a1", "uses": gen.IRQ, "key": "ka1"}
+    s1 = {"id": "s1", "acts": [a1]}
+    c = {"steps": handler}
+    if rng.chance(1, 2):
+        c["on"] = "e1"
+    on_act = rng.chance(1, 2)
+    (a1 if on_act else s1)["catches"] = [c]
+    steps = [s1, {"id": "s2", "acts": [{"id": "a9", "uses": gen.IRQ, "key": "ka9"}]}]
+    if rng.chance(1, 3):
+        # … beneath an outer step with a catch of its own
+        steps = [{"id": "s0", "branches": [{"id": "b0", "if": "(x == 0)", "steps": [s1]}], "catches": [{"on": "e2", "steps": [{"id": "os1", "acts": [{"id": "oa1", "uses": gen.IRQ, "key": "koa1"}]}]}]}, steps[1]]
+    w = {"id": "m1", "steps": steps}
+    ops = [["deploy", 0], ["start", "m1", {"pid": "p1", "x": 0, "y": 0}], ["runall"],
+           ["act", "error", "p1", {"nid": "a1", "k": 0}, {"ecode": "e1", "message": "first"}], ["runall"]]
+    if rng.chance(1, 3):
+        ops += [["act", "next", "p1", {"nid": "ca1", "k": 0}, {}], ["runall"]]
+    target = rng.pick(["ca1", "ca1", "a1", "ca2"])
+    ops += [["act", "error", "p1", {"nid": target, "k": 0}, {"ecode": rng.pick(["e1", "e2", "e3"]), "message": "second"}],
+            ["runall", rng.pick(["fifo", "lifo"]), rng.below(1 << 30)]]
+    for _ in range(6):
+        ops.append(["act", "next", "p1", {"open": 0}, {}])
+        ops.append(["runall"])
+    return {"id": f"c08-err2-{i}", "config": {"keep": rng.chance(1, 2), "dump_each": False}, "models": [w], "ops": ops, "exprs": {"(x == 0)": ["bin", "==", ["var", "x"], ["lit", 0]]},
+            "features": ["catch", "second-error"]}
+
+
 def cancel_scenario(rng, i):
     """a cancel of a completed act after the steps behind it have made partial progress: some of their acts have ended, some are open"""
     nsteps = rng.range(2, 3)
@@ -74,6 +106,8 @@ def gen_scenario(seed, i):
         return late_child_scenario(rng, i)
     if i % 10 == 4:
         return cancel_scenario(rng, i)
+    if i % 10 == 7:
+        return second_error_scenario(rng, i)
     g = gen.WfGen(rng.fork("wf"), depth=rng.pick([1, 2, 2]), max_steps=3, max_branches=3, max_acts=3, p_if=15, p_branches=40,
                   needs=rng.chance(1, 5), mixed=rng.chance(1, 6), act_kinds=((gen.IRQ, 5), (gen.MSG, 3), (gen.SET, 1)), catches=rng.chance(1, 3))
     w = g.workflow("m1")
